@@ -137,6 +137,109 @@ def make_psy(info, dm, ann, variant):
     return text, invoke.name, kerns[0]
 
 
+# ------------------------------------------- coded kernel + built-in invokes
+# A coded kernel (the repository's testkern_type: it increments a field on the
+# continuous space W1, so its loop can be coloured) followed by the built-in,
+# transformed by a short HISTORY before code generation.  Operations:
+#   read   loop.independent_iterations() on the built-in's DoF loop - what a
+#          script does to decide whether to parallelise it
+#   val_b  DynamoOMPParallelLoopTrans.validate on the built-in loop
+#   omp_b  DynamoOMPParallelLoopTrans on the built-in loop
+#   col    Dynamo0p3ColourTrans on the kernel's loop (inserts a loop)
+#   omp_k  DynamoOMPParallelLoopTrans on the kernel's (colour) loop
+#   rc     Dynamo0p3RedundantComputationTrans on the kernel's loop (DM only)
+HISTORIES = {"h0": (),
+             "h1": ("read", "col"),
+             "h2": ("omp_b", "col", "omp_k"),
+             "h3": ("col", "omp_k", "omp_b"),
+             "h4": ("val_b", "col", "read"),
+             "h5": ("read", "rc", "col", "omp_b")}
+KERNEL_ARGS = [("scalar", "r", "ka"), ("field", "r", "kf1"), ("field", "r", "kf2"),
+               ("field", "r", "km1"), ("field", "r", "km2")]
+
+
+def alg_source_multi(cap, margs):
+    '''Algorithm layer: invoke(testkern_type(...), <built-in>(...)).'''
+    _, actual = alg_source(cap, margs, "var")
+    decl = ["real(r_def) :: ka", "type(field_type) :: kf1, kf2, km1, km2"]
+    names = []
+    for a in actual:
+        names.append(a["name"])
+        if a["kind"] == "field":
+            decl.append(("type(field_type)" if a["ty"] == "r"
+                         else "type(integer_field_type)") + " :: " + a["name"])
+        else:
+            decl.append(("real(r_def)" if a["ty"] == "r" else "integer(i_def)")
+                        + " :: " + a["name"])
+    src = ["program multi_invoke",
+           "  use constants_mod, only: r_def, i_def",
+           "  use field_mod, only: field_type",
+           "  use integer_field_mod, only: integer_field_type",
+           "  use testkern_mod, only: testkern_type",
+           "  implicit none"]
+    src += ["  " + d for d in decl]
+    src += ["  call invoke( testkern_type(ka, kf1, kf2, km1, km2), &",
+            f"               {cap}({', '.join(names)}) )",
+            "end program multi_invoke", ""]
+    return "\n".join(src), actual
+
+
+def make_psy_multi(info, dm, ann, history):
+    '''Generate the PSy layer of a kernel + built-in invoke after the
+    transformation history.  Returns (text, invoke name) or raises Refused
+    when a transformation of the history refuses.'''
+    from psyclone.psyGen import PSyFactory
+    from psyclone.configuration import Config
+    from psyclone.domain.lfric import LFRicLoop, LFRicKern
+    from psyclone.domain.lfric.lfric_builtins import LFRicBuiltIn
+    from psyclone.psyir.transformations import TransformationError
+    from psyclone.transformations import (DynamoOMPParallelLoopTrans,
+                                          Dynamo0p3ColourTrans,
+                                          Dynamo0p3RedundantComputationTrans)
+    Config.get().api_conf("lfric")._compute_annexed_dofs = bool(ann)
+    try:
+        psy = PSyFactory("dynamo0.3", distributed_memory=bool(dm)).create(info)
+        invoke = psy.invokes.invoke_list[0]
+        sched = invoke.schedule
+        if len(sched.walk(LFRicBuiltIn)) != 1 or len(sched.walk(LFRicKern)) != 1:
+            raise Unsupported("not one coded kernel and one built-in")
+
+        def bloop():
+            return sched.walk(LFRicBuiltIn)[0].ancestor(LFRicLoop)
+
+        def kloop():
+            return sched.walk(LFRicKern)[0].ancestor(LFRicLoop)
+
+        try:
+            for op in history:
+                if op == "read":
+                    bloop().independent_iterations()
+                elif op == "val_b":
+                    DynamoOMPParallelLoopTrans().validate(bloop())
+                elif op == "omp_b":
+                    DynamoOMPParallelLoopTrans().apply(bloop())
+                elif op == "col":
+                    Dynamo0p3ColourTrans().apply(kloop())
+                elif op == "omp_k":
+                    DynamoOMPParallelLoopTrans().apply(kloop())
+                elif op == "rc":
+                    if not dm:
+                        raise Refused("redundant computation needs distributed memory")
+                    Dynamo0p3RedundantComputationTrans().apply(kloop(), {"depth": 2})
+                else:
+                    raise ValueError(op)
+        except TransformationError as err:
+            raise Refused(str(err.value)[:200])
+        text = str(psy.gen)
+    finally:
+        Config.get().api_conf("lfric")._compute_annexed_dofs = False
+    return text, invoke.name
+
+
+class Refused(Exception):
+    '''A transformation of a history refused: no product to judge.'''
+
+
 # ------------------------------------------------------------------ itemiser
 _ID = r"[A-Za-z]\w*"
 _RE_SUB = re.compile(r"^SUBROUTINE (%s)\((.*)\)$" % _ID, re.I)
@@ -151,7 +254,10 @@ _DECLS = [
     (re.compile(r"^(REAL|INTEGER)\(KIND=(\w+)\), pointer, dimension\(:\) :: (\w+) => null\(\)$", re.I), "data"),
     (re.compile(r"^(REAL|INTEGER)\(KIND=(\w+)\), allocatable, dimension\(:,:\) :: (\w+)$", re.I), "alloc2"),
     (re.compile(r"^(INTEGER)(?:\(KIND=(\w+)\))? (?!.*::)(.+)$", re.I), "local"),
+    # dofmaps, colour maps, per-colour last cells of the coded kernels' loops
+    (re.compile(r"^INTEGER\(KIND=\w+\), (?:pointer|allocatable) :: (.+)$", re.I), "opaque"),
 ]
+_RE_OPAQUE_ENT = re.compile(r"^(%s)\((?::|:,:)\)(?: => null\(\))?$" % _ID)
 
 
 def _field_of_proxytype(ptype):
@@ -174,6 +280,8 @@ class Item:
         self.data_of = {}     # data array -> field dummy
         self.locals = {}      # local integer scalar -> "i"
         self.alloc = {}       # allocatable 2-d array -> [ty, dims or None]
+        self.opaque = set()   # maps etc. of coded kernels (no meaning here)
+        self.skipped_loops = 0  # loops of coded kernels projected away
         self.gsum = set()
         self.mesh = set()
         self.lines = []       # plain Fortran lines for the frontend
@@ -201,7 +309,49 @@ _RE_DIR = [
 ]
 
 
-def itemise(text, invoke_name):
+_RE_KLOOP = re.compile(r"^do (cell|colour) = (.+), 1$")
+_RE_KDIR = re.compile(r"^!\$omp parallel do default\(shared\), private\(cell\), "
+                      r"schedule\(static\)$")
+_RE_BOUNDVAR = re.compile(r"\bloop\d+_(?:start|stop)\b")
+
+
+def _skip_kernel_loop(ex, j, it):
+    '''ex[j] starts the (possibly directive-wrapped, possibly coloured) loop
+    nest of a coded kernel: returns the index after it.  Only DO cell/colour,
+    END DO, CALL <kernel>_code(...) and the parallel-do directive pair are
+    accepted inside.  The loopN_start/stop variables its DO statements read
+    are recorded (they must be defined: `pv_sink = <bound>`).'''
+    depth, k, opened_dir = 0, j, 0
+    while k < len(ex):
+        low = ex[k].lower()
+        m = _RE_KLOOP.match(low)
+        if m:
+            depth += 1
+            for b in _RE_BOUNDVAR.findall(m.group(2)):
+                it.lines.append("pv_sink = " + b)
+        elif low == "end do":
+            depth -= 1
+        elif _RE_KDIR.match(low):
+            opened_dir += 1
+        elif low == "!$omp end parallel do":
+            opened_dir -= 1
+        elif re.fullmatch(r"call \w+_code\(.*\)", low) and depth > 0:
+            pass
+        else:
+            raise Unsupported("line in a coded kernel's loop nest: " + ex[k])
+        k += 1
+        if depth == 0 and opened_dir == 0:
+            it.skipped_loops += 1
+            return k
+        if depth < 0 or opened_dir < 0:
+            break
+    raise Unsupported("unbalanced loop nest of a coded kernel")
+
+
+def itemise(text, invoke_name, bfields=None):
+    '''bfields: names of the field arguments of the built-in under test in
+    an invoke that also calls coded kernels (their loops are projected away);
+    None = every field of the invoke belongs to the built-in.'''
     lines = [l.strip() for l in text.split("\n")]
     try:
         start = next(i for i, l in enumerate(lines)
@@ -257,6 +407,12 @@ def itemise(text, invoke_name):
         elif key == "local":
             for n in _names(m.group(3)):
                 it.locals[n] = "i"
+        elif key == "opaque":
+            for ent in re.split(r",\s*(?![^()]*\))", m.group(1)):
+                em = _RE_OPAQUE_ENT.match(ent.strip())
+                if not em:
+                    raise Unsupported("declaration entity " + ent)
+                it.opaque.add(em.group(1).lower())
         k += 1
     for n in it.dummies:
         if n not in it.scalars and n not in it.fields:
@@ -270,6 +426,10 @@ def itemise(text, invoke_name):
     while j < len(ex):
         l = ex[j]
         low = l.lower()
+        if _RE_KLOOP.match(low) or (_RE_KDIR.match(low) and j + 1 < len(ex)
+                                    and _RE_KLOOP.match(ex[j + 1].lower())):
+            j = _skip_kernel_loop(ex, j, it)
+            continue
         if low.startswith("!$omp"):
             for pat, key in _RE_DIR:
                 m = pat.match(low)
@@ -323,8 +483,38 @@ def itemise(text, invoke_name):
             if what == "ndf":
                 j += 1   # DoFs per cell: no meaning in the DoF-loop model; stays undefined
                 continue
+            if bfields is not None and it.proxy_of[p] not in bfields:
+                # a function space of a coded kernel: defined, but not the
+                # built-in's space
+                it.lines.append("%s = pv_other" % v)
+                j += 1
+                continue
             it.bounds.append(what)
             it.lines.append("%s = pv_%s" % (v, what))
+            j += 1
+            continue
+        # ---- run-time enquiries of the coded kernels' cell loops
+        m = re.fullmatch(r"(\w+) = (\w+)%vspace%get_(nlayers|ncell)\(\)", low)
+        if m and m.group(1) in it.locals and m.group(2) in it.proxy_of:
+            it.lines.append("%s = pv_other" % m.group(1))
+            j += 1
+            continue
+        m = re.fullmatch(r"(\w+) = (\w+)%get_(ncolours\(\)|last_edge_cell\(\)|"
+                         r"last_halo_cell\(\d+\))", low)
+        if m and m.group(1) in it.locals and m.group(2) in it.mesh:
+            it.lines.append("%s = pv_other" % m.group(1))
+            j += 1
+            continue
+        m = re.fullmatch(r"(\w+) => (\w+)%get_colour_map\(\)", low)
+        if m and m.group(1) in it.opaque and m.group(2) in it.mesh:
+            j += 1
+            continue
+        m = re.fullmatch(r"(\w+) = (\w+)%get_last_(?:halo|edge)_cell_all_colours\(\)", low)
+        if m and m.group(1) in it.opaque and m.group(2) in it.mesh:
+            j += 1
+            continue
+        m = re.fullmatch(r"(\w+) => (\w+)%vspace%get_whole_dofmap\(\)", low)
+        if m and m.group(1) in it.opaque and m.group(2) in it.proxy_of:
             j += 1
             continue
         m = re.fullmatch(r"call (\w+)%set_(dirty\(\)|clean\(\d+\))", low)
@@ -336,6 +526,10 @@ def itemise(text, invoke_name):
                 ex[j + 1].lower() == "call %s%%halo_exchange(depth=%s)" % (m.group(1), m.group(2)) \
                 and ex[j + 2].lower() == "end if":
             j += 3       # halo exchanges are C22's subject: owned/annexed DoFs are not changed
+            continue
+        m = re.fullmatch(r"call (\w+)%halo_exchange\(depth=\d+\)", low)
+        if m and m.group(1) in it.proxy_of:
+            j += 1
             continue
         m = re.fullmatch(r"(\w+) = omp_get_max_threads\(\)", low)
         if m and m.group(1) in it.locals:
@@ -383,7 +577,10 @@ def itemise(text, invoke_name):
 
 
 # ---------------------------------------------------------- export to pv-ast
-CONSTS = ("pv_last_dof_owned", "pv_last_dof_annexed", "pv_undf", "pv_nthreads", "pv_tid")
+# pv_other: a defined value that is none of the built-in's DoF counts (cell
+# counts, sizes of other function spaces); pv_sink: only ever assigned
+CONSTS = ("pv_last_dof_owned", "pv_last_dof_annexed", "pv_undf", "pv_nthreads", "pv_tid",
+          "pv_other", "pv_sink")
 
 
 def synthetic_source(it, undf, nthreads):
